@@ -101,7 +101,26 @@ def alter(rng, node):
 
 def run_case(case):
     res = common.CaseResult()
-    r = hexlib.HexRunner(res, False)
+    orng = common.mk_rng(case["fseed"], "interleaved")
+
+    def observe(runner, tg, trie, model):
+        # proofs requested from the SAME trie object between mutations (a result cached per object/key would be
+        # stale here: seeded change C03b-get-proof-lru-cache was invisible while each key was asked for once)
+        ks = sorted(model) + [b"\x12", b""]
+        for k in orng.sample(ks, min(2, len(ks))):
+            try:
+                proof = list(trie.get_proof(k))
+                res.emit("hx.proof 0 %s" % hx(k), enc_nodes(proof))
+                try:
+                    v = HexaryTrie.get_from_proof(trie.root_hash, k, proof)
+                    if v != model.get(k, b""):
+                        res.fail("honest-proof-wrong", "mid-history: get_from_proof(root, %r, get_proof(%r)) = %r, trie holds %r" % (k, k, v, model.get(k, b"")))
+                except Exception as e:  # noqa
+                    res.fail("honest-proof-rejected", "mid-history: get_from_proof(root, %r, get_proof(%r)) raised %r" % (k, k, e))
+            except Exception as e:  # noqa
+                res.fail("get-proof-raised", "get_proof(%r) raised %r" % (k, e))
+
+    r = hexlib.HexRunner(res, False, observe)
     r.run(case["ops"])
     trie, model = r.trie, r.model
     db = r.db
